@@ -78,6 +78,95 @@ def _anchor_files(pid):
     return []
 
 
+ATTR_CONTROL = """
+class K:
+    kind = 1
+    def __init__(self):
+        self.a = 1
+    def ok(self):
+        return self.a + self.kind + self.ok2()
+    def ok2(self):
+        return 0
+    def bad(self):
+        return self.missing
+"""
+
+
+def _unresolved_self_reads(program, funcs, stored_anywhere):
+    """(FuncInfo, attribute node) for reads `self.x` where no class of the MRO defines, assigns or slots x"""
+    out = []
+    n = 0
+    for fi in funcs:
+        if fi.cls is None or fi.is_static or fi.is_classmethod:
+            continue
+        a = fi.node.args
+        pos = a.posonlyargs + a.args
+        if not pos:
+            continue
+        first = pos[0].arg
+        if any(program.lookup_method(fi.cls, d) is not None for d in ("__getattr__", "__getattribute__")):
+            continue
+        for x in _ast.walk(fi.node):
+            if isinstance(x, _ast.Attribute) and isinstance(x.value, _ast.Name) and x.value.id == first and isinstance(x.ctx, _ast.Load):
+                n += 1
+                if program.has_attr(fi.cls, x.attr) is False and x.attr not in stored_anywhere:
+                    out.append((fi, x))
+    return out, n
+
+
+def _attribute_check(pid, program, chk):
+    """O0.2 (every property): in the property's anchor files every read `self.x` names something the class hierarchy
+    defines or assigns; a deleted initialisation otherwise only shows as AttributeError at run time"""
+    from sa import query
+    from sa.index import ClassInfo, FuncInfo
+
+    # positive control
+    m = query.adhoc_module(program, ATTR_CONTROL)
+    try:
+        cnode = m.tree.body[0]
+        ctl_prog_cls = None
+        for q, c in program.classes.items():
+            ctl_prog_cls = c
+            break
+        ci = ClassInfo.__new__(ClassInfo)
+        ci.__dict__.update(ctl_prog_cls.__dict__)
+        ci.qual, ci.node, ci.module, ci.mro, ci.bases = "<control>:K", cnode, m, ["<control>:K", "ext:builtins.object"], ["ext:builtins.object"]
+        ci.methods, ci.class_attrs, ci.fields = {}, {"kind": cnode.body[0].value}, {"a": [cnode.body[1].body[0]]}
+        fis = []
+        for st in cnode.body:
+            if isinstance(st, _ast.FunctionDef):
+                f = FuncInfo("<control>:K." + st.name, st, m, cls=ci)
+                ci.methods[st.name] = [f]
+                fis.append(f)
+        program.classes["<control>:K"] = ci
+        try:
+            got, _n = _unresolved_self_reads(program, fis, set())
+        finally:
+            del program.classes["<control>:K"]
+        if [(f.name, x.attr) for f, x in got] != [("bad", "missing")]:
+            raise ValueError(got)
+    except Exception as e:  # the control itself failed: the rule cannot be trusted
+        chk.undecided("O0.2", "<positive control>", "the attribute-resolution rule does not behave as expected on its control example (%s)" % e)
+        return
+    files = set(_anchor_files(pid))
+    stored = set()
+    for mod in program.modules.values():
+        for x in _ast.walk(mod.tree):
+            if isinstance(x, _ast.Attribute) and isinstance(x.ctx, _ast.Store) and not (isinstance(x.value, _ast.Name) and x.value.id == "self"):
+                stored.add(x.attr)
+            if isinstance(x, _ast.Call) and getattr(x.func, "id", None) == "setattr" and len(x.args) >= 2:
+                if isinstance(x.args[1], _ast.Constant):
+                    stored.add(x.args[1].value)
+                else:
+                    return  # dynamic attribute names: the rule does not apply
+    funcs = [fi for fi in program.functions.values() if any((getattr(fi.module, "relpath", "") or "").endswith(f) for f in files)]
+    bad, n = _unresolved_self_reads(program, funcs, stored)
+    chk.count(n)
+    chk.facts["O0.2 self-attribute reads resolved in the anchor files"] = n
+    for fi, x in bad:
+        chk.bad("O0.2", fi.qual, "self.%s is read here, but no class in the hierarchy of %s defines or assigns it (AttributeError at run time): the code this property rests on cannot run" % (x.attr, fi.cls.qual.split(":")[-1]), node=x, stmt="unresolved self.%s" % x.attr)
+
+
 def _exercise_anchor_files(pid, program, chk):
     """interpret every function of the property's anchor files once, without hooks, only to collect O0.1 reads"""
     files = set(_anchor_files(pid))
@@ -141,6 +230,7 @@ def run_property(pid, tier, seed, repo, replay=None):
         if tier == "thorough" and hasattr(mod, "run_thorough"):
             mod.run_thorough(chk)
         _exercise_anchor_files(pid, program, chk)
+        _attribute_check(pid, program, chk)
         # O0.1 (every property): a function the rules interpreted reads a local that no earlier statement on that
         # path has bound -- the anchored code raises UnboundLocalError / NameError instead of doing what the property says
         for (qual, name), line in sorted(interp.UNBOUND_READS.items()):
